@@ -243,6 +243,8 @@ class HandlerRegistry:
         v = self.v
         self.trace.append(('resolve', media_type, default))
         if self.may_fail and v.choose(2, 'resolve-fails'):
+            if not raise_not_found:
+                return (None, None, None)  # (contract of C11: no handler, no exception, when asked not to raise)
             self.raised = mk_exc(v.real('falcon.errors:HTTPUnsupportedMediaType'))
             throw(v, self.raised)
         h = self.handler
@@ -262,15 +264,28 @@ class Options:
 class WsgiBody:
     """req.bounded_stream (contract of C07): observed through the trace only."""
 
+    def __init__(self, v, trace):
+        self.trace = trace
+        self.body = v.bytes('body')
+
+    def read(self, size=None):
+        self.trace.append(('read', size))
+        return self.body
+
+    def exhaust(self, chunk_size=65536):
+        self.trace.append(('exhaust',))
+
+
+@stubclass
+class RawInput:
+    """req.stream of a WSGI request: the server's raw wsgi.input (reading it is not bounded by the Content-Length)."""
+
     def __init__(self, trace):
         self.trace = trace
 
     def read(self, size=None):
-        self.trace.append(('read', size))
+        self.trace.append(('raw-read', size))
         return b''
-
-    def exhaust(self, chunk_size=65536):
-        self.trace.append(('exhaust',))
 
 
 @stubclass
@@ -303,7 +318,8 @@ def mk_world(v, asgi, with_default=True):
     w.trace = []
     w.exhaust = v.bool('exhaust_stream')
     w.handler = MediaHandler(v, w.trace, w.exhaust)
-    w.sync_path = bool(asgi and v.choose(2, 'deserialize_sync-offered'))
+    # (the registry hands out the handler's sync fast path or None -- to both stacks; only the ASGI request may use it)
+    w.sync_path = bool(v.choose(2, 'deserialize_sync-offered'))
     w.registry = HandlerRegistry(v, w.trace, w.handler, sync_path=w.sync_path)
     # (req_options.default_media_type is configuration: App(media_type=...) / app.req_options.default_media_type = ...)
     w.dmt = v.str('default_media_type')
@@ -336,9 +352,10 @@ def mk_world(v, asgi, with_default=True):
         w.req = v.obj(AREQ, _media=w.m0, _media_error=e0_field, options=w.options, content_type=w.ct, _asgi_headers=hdrs,
                       is_websocket=False, _stream=w.stream)
     else:
-        w.stream = WsgiBody(w.trace)
+        w.stream = WsgiBody(v, w.trace)
         env = w.raw_headers = {'CONTENT_LENGTH': cl_raw} if w.has_cl else {}
-        w.req = v.obj(WREQ, _media=w.m0, _media_error=e0_field, options=w.options, content_type=w.ct, env=env, _bounded_stream=w.stream)
+        w.req = v.obj(WREQ, _media=w.m0, _media_error=e0_field, options=w.options, content_type=w.ct, env=env, _bounded_stream=w.stream,
+                      stream=RawInput(w.trace))
     d = v.choose(3, 'default_when_empty') if with_default else 0
     w.default_given = d != 0
     w.default = Doc("caller's default") if d == 1 else None
@@ -372,6 +389,7 @@ def spec_get_media(v, w, out):
         v.check('request-headers-are-only-read', same_mapping(w.raw_headers, w.raw_headers0))
         v.check('options-and-handler-are-only-read', same_fields(snapshot(w.options), w.options0)
                 and same_fields(snapshot(h), w.handler0, except_for=('result', 'raised', 'returned')))
+        v.check('raw-server-input-is-never-read', len([e for e in trace if e[0] == 'raw-read']) == 0)
         v.check('parsed-at-most-once', total <= 1)
         v.check('after-a-parse-attempt-the-result-is-cached', not (total == 1 and fresh_after))
         v.check('never-both-value-and-error', m1 is UNSET or e1 is None)
@@ -404,7 +422,10 @@ def spec_get_media(v, w, out):
         v.cover('fresh-415')
         invariant()
         return
-    if w.cl_invalid and not (w.asgi and w.sync_path):
+    # the sync fast path (handler._deserialize_sync applied to the bytes of ONE unsized read of the bounded body stream, C11):
+    # what the ASGI request does whenever the registry offers it; the WSGI request does not use it today, but may
+    fast = w.sync_path and (w.asgi or len([e for e in parses if e[0] == 'deserialize_sync']) > 0)
+    if w.cl_invalid and not fast:
         # a Content-Length that is not a non-negative number: a 400 like any other undecodable input, no handler sees the
         # body, and -- "later calls re-raise the same error" -- the error is cached like a handler's (state ERROR)
         v.check('invalid-content-length-raises-a-400-class-error', out.exc is not None and out.exc.isa(v.real('falcon.errors:HTTPInvalidHeader')) and status_code(out.exc) == 400)
@@ -416,7 +437,7 @@ def spec_get_media(v, w, out):
         v.cover('fresh-invalid-content-length')
         invariant()
         return
-    if w.asgi and w.sync_path:
+    if fast:
         # (the fast path hands the handler the bytes only: the Content-Length is not consulted at all)
         want_parse = [('deserialize_sync', w.stream.body)]
         want_reads = [('read', None)]
@@ -1157,21 +1178,33 @@ def urlencoded_serialize(v):
 
 @harness(PROP, URLH + '.__init__')
 def urlencoded_init(v):
-    v.expect_covers('constructed-with-arguments', 'constructed-with-defaults')
+    v.expect_covers('constructed-with-arguments', 'constructed-with-defaults', 'constructed-subclass')
     keep_blank = bool(v.choose(2, 'keep_blank'))
     csv = bool(v.choose(2, 'csv'))
-    h = v.obj(URLH)
+    cls = v.real(URLH)
+    subclassed = bool(v.choose(2, 'subclassed'))
+    if subclassed:
+        cls = type('AppFormHandler', (cls,), {})
+    h = v.obj(cls)
     explicit = v.choose(2, 'explicit-args')
     out = v.call(h, keep_blank, csv) if explicit else v.call(h)
     v.check('no-exception', out.exc is None)
     if out.exc is not None:
         return
-    ss, ds = v.get(h, '_serialize_sync'), v.get(h, '_deserialize_sync')
-    v.check('sync-fast-path-is-serialize-and-_deserialize', fn_name(ss) == 'serialize' and fn_self(ss) is h and fn_name(ds) == '_deserialize' and fn_self(ds) is h)
-    # the two parser options are what _deserialize hands to parse_query_string: stored as given, documented defaults otherwise
     f = snapshot(h)
+    if subclassed:
+        # a subclass may override serialize / deserialize: the fast path (which calls serialize / _deserialize of this class
+        # directly) must not be published for it
+        v.check('subclass-does-not-publish-the-sync-fast-path', '_serialize_sync' not in f and '_deserialize_sync' not in f
+                and getattr(cls, '_serialize_sync', None) is None and getattr(cls, '_deserialize_sync', None) is None)
+        v.check('sets-exactly-the-options-and-the-fast-path', set(f) == {'_keep_blank', '_csv'})
+        v.cover('constructed-subclass')
+    else:
+        ss, ds = v.get(h, '_serialize_sync'), v.get(h, '_deserialize_sync')
+        v.check('sync-fast-path-is-serialize-and-_deserialize', fn_name(ss) == 'serialize' and fn_self(ss) is h and fn_name(ds) == '_deserialize' and fn_self(ds) is h)
+        v.check('sets-exactly-the-options-and-the-fast-path', set(f) == {'_keep_blank', '_csv', '_serialize_sync', '_deserialize_sync'})
+    # the two parser options are what _deserialize hands to parse_query_string: stored as given, documented defaults otherwise
     v.check('parser-options-stored-as-given-or-documented-defaults', f.get('_keep_blank') is (keep_blank if explicit else True) and f.get('_csv') is (csv if explicit else False))
-    v.check('sets-exactly-the-options-and-the-fast-path', set(f) == {'_keep_blank', '_csv', '_serialize_sync', '_deserialize_sync'})
     v.cover('constructed-with-arguments' if explicit else 'constructed-with-defaults')
 
 
@@ -1313,13 +1346,13 @@ class Serializer:
         return self._render()
 
 
-def mk_resp(v, asgi, state=None, media_kinds=2, simple=False):
+def mk_resp(v, asgi, state=None, media_kinds=2, simple=False, may_fail=False):
     w = World()
     w.asgi = asgi
     w.trace = []
     w.handler = Serializer(v, w.trace)
-    w.sync_path = bool(asgi and not simple and v.choose(2, 'serialize_sync-offered'))
-    w.registry = HandlerRegistry(v, w.trace, w.handler, sync_path=w.sync_path, may_fail=False)
+    w.sync_path = bool(not simple and v.choose(2, 'serialize_sync-offered'))  # (offered to both stacks; only ASGI may use it)
+    w.registry = HandlerRegistry(v, w.trace, w.handler, sync_path=w.sync_path, may_fail=may_fail)
     w.dmt = v.str('default_media_type')  # resp_options.default_media_type: configuration
     w.options = Options(w.registry, w.dmt)
     k = 0 if simple else v.choose(3, 'resp-content-type')
@@ -1351,11 +1384,20 @@ def resp_frame(v, w, clause, may_write):
 def spec_render_body(v, w, out):
     UNSET = unset(v)
     resp, trace = w.resp, w.trace
-    v.expect_covers('no-media', 'cached', 'rendered')
+    v.expect_covers('no-media', 'cached', 'rendered', *(['no-handler-for-the-content-type'] if w.registry.may_fail else []))
+    r1 = v.get(resp, '_media_rendered')
+    if w.registry.raised is not None:
+        # no media handler is configured for the response's content type: the registry's 415-class error reaches the caller as it
+        # is, nothing has been serialized and nothing is cached (a later rendering asks the registry again)
+        v.check('unsupported-media-type-propagates', out.exc is not None and same_exc(out.exc, w.registry.raised))
+        v.check('unsupported-media-type-serializes-and-caches-nothing', len([e for e in trace if e[0].startswith('serialize')]) == 0 and r1 is UNSET
+                and v.get(resp, '_media') is w.media)
+        resp_frame(v, w, 'first-rendering-writes-only-the-rendering-cache-and-content-type', ('_media_rendered', 'content_type'))
+        v.cover('no-handler-for-the-content-type')
+        return
     v.check('no-exception', out.exc is None)
     if out.exc is not None:
         return
-    r1 = v.get(resp, '_media_rendered')
     if w.media is None:
         v.check('no-media-renders-nothing', out.value is None and len(trace) == 0)
         v.check('no-media-leaves-rendering-cache-alone', r1 is w.rendered0)
@@ -1371,7 +1413,9 @@ def spec_render_body(v, w, out):
         return
     # first rendering of the assigned media
     ct_eff = w.dmt if (w.ct is None or (isinstance(w.ct, str) and w.ct == '')) else w.ct
-    if w.asgi and w.sync_path:
+    # (the sync fast path handler._serialize_sync(media), C11: used by the ASGI response whenever the registry offers it; the
+    # WSGI response does not use it today, but may)
+    if w.sync_path and (w.asgi or len([e for e in trace if e[0] == 'serialize_sync']) > 0):
         want = [('resolve', ct_eff, w.dmt), ('serialize_sync', w.media)]
     elif w.asgi:
         want = [('resolve', ct_eff, w.dmt), ('serialize_async', w.media, ct_eff)]
@@ -1390,14 +1434,14 @@ def spec_render_body(v, w, out):
 
 @harness(PROP, WRESP + '.render_body')
 def wsgi_render_body_media(v):
-    w = mk_resp(v, asgi=False)
+    w = mk_resp(v, asgi=False, may_fail=True)
     out = v.call(w.resp)
     spec_render_body(v, w, out)
 
 
 @harness(PROP, ARESP + '.render_body')
 def asgi_render_body_media(v):
-    w = mk_resp(v, asgi=True)
+    w = mk_resp(v, asgi=True, may_fail=True)
     out = v.call(w.resp)
     spec_render_body(v, w, out)
 
@@ -1476,6 +1520,18 @@ ASSUMPTIONS = [
     'Response.content_type is a plain get/set of the Content-Type header (symbolic runs shadow the header property with a field; replays use the real property)',
     'a media handler may return any object or None, and may raise MediaNotFoundError, MediaMalformedError or any other Exception (all explored); BaseException subclasses '
     'that are not Exception (KeyboardInterrupt, ...) are not cached by get_media and are outside the statement',
+    'an encoder that returns bytes (orjson-like) returns well-formed UTF-8 (round-trip harness; the _serialize_b harnesses take any bytes)',
+    # inputs found fixed by the audit and deliberately left fixed
+    'Response.render_body is run with resp.text and resp.data unset: the precedence text > data > media is C05 (body-follows-precedence-text-data-media-stream); '
+    'the media setter harness does carry text and data set earlier',
+    'get_media is run on a request whose body stream object exists already (_bounded_stream / _stream set): the lazy creation inside the bounded_stream / stream '
+    'properties (and the is_websocket refusal of the ASGI one, fixed to False: a WebSocket handshake has no media) is C07; the raw wsgi.input is a recording stub that must stay untouched',
+    'the Content-Length a request declares is one sample per class the accessor distinguishes (absent, "17", empty, "x1", "-1"): the accessor itself is C09',
+    'Request.__init__ base case: POST /things?q=1,2&r= with a two-entry header set and a small body, options object given (every option flag the constructor reads varies); '
+    'ASGI: first_event=None (stored only)',
+    'BaseHandler.serialize_async is given a content type (its signature requires one); the JSON codecs stubs Loads / Dumps are given or both omitted in __init__',
+    'Handlers._resolve on the response side raises (no handler for the content type) or succeeds; asked with raise_not_found=False it returns (None, None, None) instead of raising',
+    'the sync fast path is offered or not to both stacks; the WSGI request / response may use it (on the bounded stream, caching as usual) or not -- both are accepted',
 ]
 NOT_DECIDED = [
     'the JSON round trip itself (loads(dumps(m)) == m) and the form round trip (parse_query_string(urlencode(f)) == f): dependency contracts, see ASSUMPTIONS; '
@@ -1488,7 +1544,7 @@ NOT_DECIDED = [
     'other handlers (MessagePackHandler, MultipartFormHandler -> C13, JSONHandlerWS)',
 ]
 TRUSTED = [
-    'ghost stubs in contracts/C12_media.py: MediaHandler, HandlerRegistry, Options, WsgiBody, AsgiBody, ByteSource, Loads, Dumps, ParseQS, UrlEncode, Serializer, GhostBytesIO, SyncOnly',
+    'ghost stubs in contracts/C12_media.py: MediaHandler, HandlerRegistry, Options, WsgiBody, RawInput, AsgiBody, ByteSource, Loads, Dumps, ParseQS, UrlEncode, Serializer, GhostBytesIO, SyncOnly',
     'codec_model in contracts/C12_media.py (utf-8 / ascii / latin-1 strict; UTF-8 validity as the exact regular language; encode/decode as uninterpreted functions with the round-trip axiom)',
     'opaque dependencies are substituted by rebinding the module-level name in the overlay module while the subject runs (class `patched`): parse_query_string, urlencode in falcon.media.urlencoded',
     'property access `req.media` goes through the executor\'s attribute lookup on the real class object (property -> fget -> source of get_media)',
@@ -1603,8 +1659,74 @@ KILLS = [
      'Response.media@setter#assignment-writes-only-media-and-the-rendering-cache'),
     ('falcon/response.py', '        return self._media\n', "        self.content_type = self.content_type or 'application/json'\n        return self._media\n",
      'Response.media#reading-writes-nothing-on-the-response'),
+    # --- inputs that the harnesses used to fix to one constant (audit: "an input the code reads is a constant in the harness")
+    # the configured default media type is replaced by the library constant (the stub options used to carry exactly that constant)
+    ('falcon/request.py', '            self.content_type, self.options.default_media_type\n', '            self.content_type, DEFAULT_MEDIA_TYPE\n',
+     'falcon.request:Request.get_media#exactly-one-handler-resolution'),
+    ('falcon/response.py', '                    if not self.content_type:\n                        self.content_type = self.options.default_media_type\n',
+     '                    if not self.content_type:\n                        self.content_type = DEFAULT_MEDIA_TYPE\n',
+     'falcon.response:Response.render_body#one-resolution-then-one-serialization-of-the-assigned-media'),
+    # the Content-Length is evaluated before the try block: a malformed one is not cached, a later call raises another error
+    # object (the Content-Length used to be "17" or absent)
+    ('falcon/request.py', '        try:\n            self._media = handler.deserialize(\n                self.bounded_stream, self.content_type, self.content_length\n            )\n',
+     '        content_length = self.content_length\n        try:\n            self._media = handler.deserialize(\n                self.bounded_stream, self.content_type, content_length\n            )\n',
+     'falcon.request:Request.get_media#invalid-content-length-error-is-cached-for-later-calls'),
+    # with auto_parse_form_urlencoded the constructor keeps the form it consumed as the request media (the option used to be off)
+    ('falcon/request.py', '            self._params.update(extra_params)\n', '            self._params.update(extra_params)\n            self._media = extra_params\n',
+     'Request.__init__#new-request-is-fresh'),
+    # JSON: a request without a Content-Type header is "no media" (handlers used to be called with their own media type only)
+    ('falcon/media/json.py', '        return self._deserialize(stream.read())\n',
+     "        if content_type is None:\n            raise errors.MediaNotFoundError('JSON')\n        return self._deserialize(stream.read())\n",
+     'JSONHandler.deserialize#reads-the-whole-body-with-one-unsized-read'),
+    # JSON: RFC 7464 framing for "+json-seq" content types -- the body is no longer the document dumps produced
+    ('falcon/media/json.py', '    def _serialize_s(self, media: Any, content_type: Optional[str] = None) -> bytes:\n        return self._dumps(media).encode()',
+     "    def _serialize_s(self, media: Any, content_type: Optional[str] = None) -> bytes:\n        if content_type is not None and content_type.endswith('+json-seq'):\n"
+     "            return b'\\x1e' + self._dumps(media).encode() + b'\\n'\n        return self._dumps(media).encode()",
+     'JSONHandler._serialize_s#returns-dumps-text-encoded-as-utf8'),
+    # JSON / form handler: the sync fast path is published for subclasses too (their overridden methods would be bypassed)
+    ('falcon/media/json.py', '        if type(self) is JSONHandler:\n', '        if isinstance(self, JSONHandler):\n', 'JSONHandler.__init__#subclass-does-not-publish-the-sync-fast-path'),
+    ('falcon/media/urlencoded.py', '        if type(self) is URLEncodedFormHandler:\n', '        if isinstance(self, URLEncodedFormHandler):\n',
+     'URLEncodedFormHandler.__init__#subclass-does-not-publish-the-sync-fast-path'),
+    # JSON: the default decoder is dropped (the constructor used to be given both codecs)
+    ('falcon/media/json.py', '        self._loads = loads or json.loads\n\n        # PERF(kgriffs): Test dumps once up front', '        self._loads = loads\n\n        # PERF(kgriffs): Test dumps once up front',
+     'JSONHandler.__init__#default-loads-decodes-json-text-back-to-the-document'),
+    # JSON, encoder returning bytes: a UTF-8 BOM is prepended (json.loads refuses it: the round trip fails); the round trip used to
+    # be run for a text encoder only
+    ('falcon/media/json.py', '    def _serialize_b(self, media: Any, content_type: Optional[str] = None) -> bytes:\n        return self._dumps(media)',
+     "    def _serialize_b(self, media: Any, content_type: Optional[str] = None) -> bytes:\n        return b'\\xef\\xbb\\xbf' + self._dumps(media)",
+     'JSONHandler.deserialize#loads-receives-exactly-the-utf8-decoding-of-the-bytes-dumps-produced'),
+    # form handler: a declared Content-Length of 0 short-cuts to an empty form although a body is there (the length used to be None)
+    ('falcon/media/urlencoded.py', '        return self._deserialize(stream.read())\n', '        if content_length == 0:\n            return {}\n        return self._deserialize(stream.read())\n',
+     'URLEncodedFormHandler.deserialize#reads-the-whole-body-with-one-unsized-read'),
+    # form handler: the csv parser option leaks into the encoding (the serializing handler used to be the default-configured one)
+    ('falcon/media/urlencoded.py', '        return urlencode(media, doseq=True).encode()\n', '        return urlencode(media, doseq=not self._csv).encode()\n',
+     'URLEncodedFormHandler.serialize#urlencode-receives-the-media-with-doseq'),
+    # WSGI: the fast path of the ASGI stack is ported carelessly -- it reads the server's raw input instead of the bounded stream /
+    # returns without caching the rendering (the stub registry used to offer the WSGI stack no fast path at all)
+    ('falcon/request.py', '        handler, _, _ = self.options.media_handlers._resolve(\n            self.content_type, self.options.default_media_type\n        )\n\n'
+     '        try:\n            self._media = handler.deserialize(\n                self.bounded_stream, self.content_type, self.content_length\n            )\n',
+     '        handler, _, deserialize_sync = self.options.media_handlers._resolve(\n            self.content_type, self.options.default_media_type\n        )\n\n'
+     '        try:\n            if deserialize_sync:\n                self._media = deserialize_sync(self.stream.read())\n            else:\n'
+     '                self._media = handler.deserialize(\n                    self.bounded_stream, self.content_type, self.content_length\n                )\n',
+     'falcon.request:Request.get_media#exactly-one-parse-of-the-body-stream'),
+    ('falcon/response.py', '                    handler, _, _ = self.options.media_handlers._resolve(\n                        self.content_type, self.options.default_media_type\n'
+     '                    )\n\n                    self._media_rendered = handler.serialize(\n',
+     '                    handler, serialize_sync, _ = self.options.media_handlers._resolve(\n                        self.content_type, self.options.default_media_type\n'
+     '                    )\n                    if serialize_sync:\n                        return serialize_sync(self._media)\n\n                    self._media_rendered = handler.serialize(\n',
+     'falcon.response:Response.render_body#rendering-cached'),
+    # a response content type without a handler: the registry is asked not to raise and the missing handler is used anyway
+    # (AttributeError -> 500 instead of the registry's own error; the stub registry of the response side used to succeed always)
+    ('falcon/response.py', '                    handler, _, _ = self.options.media_handlers._resolve(\n                        self.content_type, self.options.default_media_type\n                    )\n',
+     '                    handler, _, _ = self.options.media_handlers._resolve(\n                        self.content_type, self.options.default_media_type, raise_not_found=False\n                    )\n',
+     'falcon.response:Response.render_body#no-exception'),
 ]
 HARMLESS = [
+    # the WSGI request uses the sync fast path the registry offers, on the bounded stream (what the ASGI request does)
+    ('falcon/request.py', '        handler, _, _ = self.options.media_handlers._resolve(\n            self.content_type, self.options.default_media_type\n        )\n\n'
+     '        try:\n            self._media = handler.deserialize(\n                self.bounded_stream, self.content_type, self.content_length\n            )\n',
+     '        handler, _, deserialize_sync = self.options.media_handlers._resolve(\n            self.content_type, self.options.default_media_type\n        )\n\n'
+     '        try:\n            if deserialize_sync:\n                self._media = deserialize_sync(self.bounded_stream.read())\n            else:\n'
+     '                self._media = handler.deserialize(\n                    self.bounded_stream, self.content_type, self.content_length\n                )\n'),
     ('falcon/media/json.py', '            return self._loads(data.decode())\n', '            text = data.decode()\n            return self._loads(text)\n'),
     ('falcon/request.py', '        if self._media is not _UNSET:\n            return self._media\n',
      '        cached = self._media\n        if cached is not _UNSET:\n            return cached\n'),
